@@ -1,5 +1,7 @@
 /* Harness library: PRNG, output, reference codec/crypto, key zoo, crash isolation. */
 #include "vh.h"
+#include <openssl/pem.h>
+#include <openssl/bio.h>
 #include <stdarg.h>
 #include <unistd.h>
 #include <signal.h>
@@ -317,6 +319,20 @@ int vh_key_gen(vh_key_t *k, const char *spec, vh_rng_t *r)
 			return -1;
 		}
 		EVP_PKEY_CTX_free(c);
+		k->bits = EVP_PKEY_get_bits(k->pkey);
+		return 0;
+	}
+	if (!strncmp(spec, "rsafile:", 8)) {
+		/* RSA keys too large to generate per run (more than 8192 bits): read from /verif/data/keys/rsa<bits>.pem */
+		char path[512];
+		BIO *bio;
+		snprintf(path, sizeof(path), "%s/keys/rsa%d.pem", VH_DATA_DIR, atoi(spec + 8));
+		bio = BIO_new_file(path, "r");
+		k->kind = VH_K_RSA;
+		if (!bio) return -1;
+		k->pkey = PEM_read_bio_PrivateKey(bio, NULL, NULL, NULL);
+		BIO_free(bio);
+		if (!k->pkey) return -1;
 		k->bits = EVP_PKEY_get_bits(k->pkey);
 		return 0;
 	}
